@@ -77,7 +77,7 @@ def verify(out_dir, m, prop, sid):
             names = []
             for d in demos:
                 names += re.findall(r"^func (Test\w+)\(", open(os.path.join(out_dir, d)).read(), flags=re.M)
-            demo_cmd = ["go", "test", "-vet=off", "-count=1", "-timeout", "300s", "-run", "^(" + "|".join(names) + ")$", "./spdxexp/"]
+            demo_cmd = ["go", "test", "-vet=off", "-count=1", "-timeout", "300s"] + os.environ.get("SEED_TEST_FLAGS", "").split() + ["-run", "^(" + "|".join(names) + ")$", "./spdxexp/"]
         step("demonstration passes on the unchanged tree", demo_cmd, wt, True)
         for t in demo_targets:
             if os.path.isdir(t):
